@@ -264,7 +264,7 @@ class Ctx:
                 self.theorems[n] = "NOT-CHECKED (build failed)"
             return False
         cmd2 = ["coqc", "-Q", str(COQ), "SV", str(pf)]
-        rc2, out2, dt2 = sh(cmd2, timeout=900)
+        rc2, out2, dt2 = sh(f"ulimit -v 20000000 2>/dev/null; exec coqc -Q {COQ} SV {pf}", timeout=900)
         self.checker_cmds.append(" ".join(cmd2) + f"   # rc={rc2}, {dt2:.1f}s")
         if rc2 != 0:
             self.broken.append({"kind": "proof", "what": f"{props_file}: {_first_error(out2)}"})
@@ -315,7 +315,7 @@ class Ctx:
 
         def run(item):
             k, f = item
-            rc, out, dt = sh(f"ulimit -s unlimited 2>/dev/null; exec coqc -Q {COQ} SV {f}", timeout=timeout)
+            rc, out, dt = sh(f"ulimit -s unlimited 2>/dev/null; ulimit -v 20000000 2>/dev/null; exec coqc -Q {COQ} SV {f}", timeout=timeout)
             return k, f, rc, out
 
         failing: list[int] = []
@@ -339,7 +339,7 @@ class Ctx:
         f = self.casedir / f"{tag}.v"
         f.write_text("From Coq Require Import List ZArith Bool Arith.\nFrom SV Require Import Common.Corr.\n"
                      + imports + "\nImport ListNotations.\nEval vm_compute in (" + term + ").\n")
-        rc, out, dt = sh(f"ulimit -s unlimited 2>/dev/null; exec coqc -Q {COQ} SV {f}", timeout=timeout)
+        rc, out, dt = sh(f"ulimit -s unlimited 2>/dev/null; ulimit -v 20000000 2>/dev/null; exec coqc -Q {COQ} SV {f}", timeout=timeout)
         return out.strip()
 
     # ---------------- verdict pieces
